@@ -130,6 +130,10 @@ ObsOK(o) ==
     /\ o.nc = NodeCount /\ o.ec = EdgeCount
     /\ o.directed = dir
     /\ o.nodes = NodeRefs /\ o.edges = EdgeRefs
+    /\ o.edges_rev = [i \in 1 .. Len(EdgeRefs) |-> EdgeRefs[Len(EdgeRefs) + 1 - i]]           \* DoubleEndedIterator
+    /\ o.nodes_rev = [i \in 1 .. Len(NodeRefs) |-> NodeRefs[Len(NodeRefs) + 1 - i]]
+    /\ o.edges_mix = [i \in 1 .. Len(EdgeRefs) |-> IF i % 2 = 1 THEN EdgeRefs[(i + 1) \div 2]      \* next / next_back alternating
+                                                   ELSE EdgeRefs[Len(EdgeRefs) + 1 - (i \div 2)]]
     /\ o.nidx = Asc(LiveN) /\ o.nidx_rev = Desc(LiveN)
     /\ o.eidx = Asc(LiveE) /\ o.eidx_rev = Desc(LiveE)
     /\ o.nws = [i \in 1 .. NodeCount |-> NodeRefs[i][2]]
